@@ -173,6 +173,17 @@ func vFamilies(thorough bool) []map[string][]vRule {
 		subs = append(subs, vEnumRuleLists(alpha, 2)...)
 	}
 	var out []map[string][]vRule
+	// chains of includes (an included state that itself includes, with names sorting before and after the includer)
+	id, ws, under, cl := alpha[0], alpha[1], alpha[2], alpha[4]
+	inc := func(s string) vRule { return vRule{"", "", "include:" + s} }
+	out = append(out,
+		map[string][]vRule{"Root": {id, inc("Value")}, "Value": {inc("Ws"), cl}, "Ws": {ws}},
+		map[string][]vRule{"Root": {inc("M")}, "M": {id, inc("Z")}, "Z": {ws, inc("ZZ")}, "ZZ": {under}},
+		map[string][]vRule{"Root": {inc("B")}, "B": {inc("A")}, "A": {id}},
+		map[string][]vRule{"Root": {id, {"Open", `\(`, "push:A"}}, "A": {cl, inc("Root")}},
+		map[string][]vRule{"Root": {inc("A"), inc("B")}, "A": {id}, "B": {ws, inc("A")}},
+		map[string][]vRule{"Root": {inc("Zb"), inc("Za")}, "Za": {inc("Zc"), ws}, "Zb": {id}, "Zc": {under, cl}},
+	)
 	for _, r := range roots {
 		if len(r) == 0 {
 			continue
@@ -238,7 +249,7 @@ func newNoPanic(rules Rules) (def *StatefulDefinition, err error, panicked inter
 // matches start at offset 0 (the rulesOK invariant Next's proof assumes: C03, C04, C07).
 func TestVerif_C03C04C07_New(t *testing.T) {
 	res := &verifResult{Check: "lexer.New", Property: "C03 C04 C07", Exhaustive: true,
-		Bound: "all rule maps with states Root (1-2 rules over the full alphabet), optional A (1-3 rules over {Ident, ws, Close/pop, return}; thorough: also 1-2 over the full alphabet, plus optional B with 1 rule) over the rule alphabet of vAlphabet (plain / lower-case / underscore-initial names, metacharacter and unbalanced patterns, push, pop, include, return; thorough adds unknown targets, digit-initial and non-ASCII names); include cycles excluded",
+		Bound: "all rule maps with states Root (1-2 rules over the full alphabet), optional A (1-3 rules over {Ident, ws, Close/pop, return}; thorough: also 1-2 over the full alphabet, plus optional B with 1 rule) over the rule alphabet of vAlphabet (plain / lower-case / underscore-initial names, metacharacter and unbalanced patterns, push, pop, include, return; thorough adds unknown targets, digit-initial and non-ASCII names); plus 6 rule maps with chains of includes over 3-4 states; include cycles excluded",
 		Rule: "distinct rule maps; non-trivial = accepted by New and containing an action, include or return"}
 	seen := map[string]bool{}
 	for _, states := range vFamilies(verifThorough()) {
